@@ -93,6 +93,11 @@ package disk
 //@   loop 0 invariant kept: forall k Int :: (lo(blobs) <= k && k < hi(blobs)) ==> (elems(blobs)[k] == 0 || elems(blobs)[k] == old(elems(blobs))[k] || c.proxy != nil)
 //@   loop 0 invariant done: (failFast && c.proxy == nil) ==> (forall k Int :: (lo(blobs) <= k && k < hi(blobs) - len(remaining)) ==> elems(blobs)[k] == 0)
 //@   loop 0 invariant nonnilrest: forall k Int :: (hi(blobs) - len(remaining) <= k && k < hi(blobs)) ==> elems(blobs)[k] != 0
+//@   ensures[C18] oversize: (result == nil && failFast && c.proxy != nil) ==> (forall k Int :: (lo(blobs) <= k && k < hi(blobs) && elems(blobs)[k] != 0) ==> dSize(elems(blobs)[k]) <= c.maxProxyBlobSize)
+//@   loop 0 invariant[C18] oversize: (failFast && c.proxy != nil) ==> (forall k Int :: (lo(blobs) <= k && k < hi(blobs) - len(remaining) && elems(blobs)[k] != 0) ==> dSize(elems(blobs)[k]) <= c.maxProxyBlobSize)
+//@   loop 1 invariant[C18] oversizeprev: (failFast && c.proxy != nil) ==> (forall k Int :: (lo(blobs) <= k && k < lo(chunk) && elems(blobs)[k] != 0) ==> dSize(elems(blobs)[k]) <= c.maxProxyBlobSize)
+//@   loop 1 invariant[C18] oversizechunk: (failFast && c.proxy != nil) ==> (forall k Int :: (lo(chunk) <= k && k < lo(chunk) + rangeindex + 1 && elems(blobs)[k] != 0) ==> dSize(elems(blobs)[k]) <= c.maxProxyBlobSize)
+//@   loop 1 invariant chunkpos: arr(chunk) == arr(blobs) && lo(chunk) == hi(blobs) - len(remaining) - len(chunk) && lo(blobs) <= lo(chunk) && len(chunk) > 0
 //@   loop 0 modifies lruState(c.lru), elems(blobs), hitN, hitSize, visited
 //@   loop 1 modifies nothing
 //@   call findMissingLocalCAS#* asserts[C10] chunk: arr(arg1) == arr(blobs) && lo(arg1) == hi(blobs) - len(remaining) - len(arg1) && 0 < len(arg1) && len(arg1) <= 20
